@@ -6,6 +6,6 @@ CONSTANTS
   MaxDepth = 4
   Alphabet <- AlphaCore
   MaxToks = 1
-  Big = FALSE
+  USize = 1
 SPECIFICATION SpecTrees
 INVARIANT OrIff
